@@ -885,7 +885,24 @@ func (g *Gen) genC17() {
 					return ""
 				}
 				if len(items) == 0 {
-					return "" // empty list: see known finding F17 (counted as one nameless parameter)
+					// empty list: there is no parameter to count (known finding F17 on the unchanged tree)
+					switch mode {
+					case 1:
+						var l sipsp.URIParamsLst
+						l.Init(make([]sipsp.URIParam, cap))
+						sipsp.ParseAllURIParams(bb, 0, &l, sipsp.POptFlags(flags))
+						if l.N != 0 {
+							return fmt.Sprintf("phantom parameter: empty URI parameter list %q (flags %d) counted as N=%d", text, flags, l.N)
+						}
+					case 2:
+						var l sipsp.URIHdrsLst
+						l.Init(make([]sipsp.URIHdr, cap))
+						sipsp.ParseAllURIHdrs(bb, 0, &l, sipsp.POptFlags(flags))
+						if l.N != 0 {
+							return fmt.Sprintf("phantom parameter: empty URI header list %q (flags %d) counted as N=%d", text, flags, l.N)
+						}
+					}
+					return ""
 				}
 				switch mode {
 				case 0:
